@@ -194,9 +194,15 @@ def run(tier):
             continue          # achiral: the reflected figure is the same case
         T = c["atoms"]        # T[k-1] = identifier on figure position k; positions 3, 4 are the bond atoms
         spell = {(tuple(s_[0]), s_[1]) for s_ in c["spellings"]}
-        for theta in ((120.0,) if tier == "quick" and n_planar % 3 else (112.0, 120.0, 128.0, 140.0, 150.0)):
-            strained = theta > 130
+        # (angle of the substituents on the +y side, angle of those on the -y side) with the C=C bond; unequal angles at
+        # one end occur in small rings (cyclopropene: about 150 and 64 degrees)
+        sym = [(t, t) for t in ((120.0,) if tier == "quick" and n_planar % 3 else (112.0, 120.0, 128.0, 140.0, 150.0))]
+        asym = [(150.0, 75.0), (168.0, 80.0), (80.0, 165.0)] if (tier != "quick" or n_planar % 3 == 0) else []
+        for theta, theta_b in sym + asym:
+            strained = theta > 130 or theta_b > 130
             sub_els = [1, 9, 1, 9] if strained or rnd.random() < 0.3 else rnd.sample([1, 9, 17, 35], 4)
+            if theta != theta_b:
+                sub_els = [9, 1, 9, 1] if theta_b < 90 else [1, 9, 1, 9]     # the small atom on the narrow side (no extra bond)
             el_of = {T[2]: 6, T[3]: 6, T[0]: sub_els[0], T[1]: sub_els[1], T[4]: sub_els[2], T[5]: sub_els[3]}
             if el_of[T[0]] == el_of[T[1]] or el_of[T[4]] == el_of[T[5]]:
                 continue
@@ -206,7 +212,8 @@ def run(tier):
             for k, (end, sx, sy) in {0: (T[2], -1, 1), 1: (T[2], -1, -1), 4: (T[3], 1, 1), 5: (T[3], 1, -1)}.items():
                 L = r_cov[6] + r_cov[el_of[T[k]]]
                 # angle theta between the C=C bond and the C-X bond
-                pos[T[k]] = pos[end] + L * np.array([-sx * math.cos(th), sy * math.sin(th), 0.0])
+                tk = th if sy > 0 else math.radians(theta_b)
+                pos[T[k]] = pos[end] + L * np.array([-sx * math.cos(tk), sy * math.sin(tk), 0.0])
             seq = list(pos)
             rnd.shuffle(seq)
             arr = np.array([pos[i] for i in seq]) + np.array([[rnd.uniform(-0.01, 0.01) for _ in range(3)] for _ in seq])
@@ -217,7 +224,7 @@ def run(tier):
                 n_skip += 1
                 continue
             index_of = {i: k for k, i in enumerate(seq)}
-            det = {"case": {"cls": "PlanarBond", "atoms": T}, "theta": theta, "elements": el_seq, "coords": arr.tolist(), "index_of": index_of}
+            det = {"case": {"cls": "PlanarBond", "atoms": T}, "theta": [theta, theta_b], "elements": el_seq, "coords": arr.tolist(), "index_of": index_of}
             try:
                 g = SMG.from_geometry(Geometry(el_seq, arr))
             except Exception as e:
